@@ -22,7 +22,10 @@ RULE = ("case = 21 configuration bytes ({xhtml,html} x 8 tags x kinds {none,pair
         "uri,uri+schemes,relative,absolute+schemes,absolute} x tag masks x comments x numeric entities x extra entities x 11 encodings x "
         "{remove,escape} x 6 replacement chars) + text (fuzzer bytes with HTML dictionary / grammar documents with byte mutations, <= 4 KiB). "
         "Non-trivial: the input does NOT validate and the output still contains at least one tag, entity or comment (the filter had to keep "
-        "something while removing something). Distinct = hash of (configuration, input bytes).")
+        "something while removing something), OR the input contains a numeric character reference whose value is >= 2^32 (it must be "
+        "rejected whatever it wraps to). Distinct = hash of (configuration, input bytes). A deterministic grid of 19 200 numeric references "
+        "({dec,hex,HEX} x leading zeros {0,1,8,30} x {cp,2^32+cp,2^33+cp,2^64+cp,2^31-1,2^31,2^32-1,2^32,0x110000,0x10FFFF} x 11 code points x "
+        "{text,attribute} x {xhtml,html} x {remove,escape} x numeric {on,off} x {clean,dirty document}) runs in unit g0 of every tier.")
 
 HERE = os.path.dirname(os.path.dirname(os.path.abspath(__file__)))
 CORPUS = os.path.join(HERE, "corpus", "C04", "seeds")
@@ -106,6 +109,9 @@ MUTATIONS = [
     dict(name="utf8-overlong-accepted", edits=[("private/utf_iterator.h", "\t\tif(width(c)!=trail_size + 1)\n\t\t\treturn illegal;\n", "")]),
     # own: off by one in the ISO-8859-8 table (0xBF is unassigned)
     dict(name="iso-8859-8-table-off-by-one", edits=[("private/encoding_validators.h", "if(0xBF <=c && c<=0xDE)", "if(0xC0 <=c && c<=0xDE)")]),
+    # own (class of seeded change C04-4): the upper bound of a numeric reference is tested on the value truncated to 32 bits,
+    # so k*2^32+cp passes as cp
+    dict(name="numeric-entity-value-truncated-to-32-bits", edits=[(X, "|| code_point>0x10FFFF", "|| (unsigned)code_point>0x10FFFF")]),
     # own: a stray '>' is treated as text
     dict(name="stray-gt-is-text", edits=[(X, "\t\t\t\t\t\ttags.push_back(entry(p,p+1,invalid_data));", "\t\t\t\t\t\ttags.push_back(entry(p,p+1,plain_text));")]),
 ]
